@@ -44,6 +44,9 @@ class SimStream(trio.abc.HalfCloseableStream):
         self.jitter = jitter
         self.bytes_written = 0
         self.inflight = 0  # bytes handed to send_all and not yet accepted by the client
+        # opt-in (conn["write_buffer"]): bytes the "kernel" takes off the sender's hands while the client is not reading
+        self.capacity = conn.get("write_buffer")
+        self.kbuf = bytearray()
 
     def _now(self):
         return trio.current_time()
@@ -73,6 +76,10 @@ class SimStream(trio.abc.HalfCloseableStream):
                 if self.jitter is not None:
                     for _ in range(self.jitter()):
                         await trio.lowlevel.checkpoint()
+                if self.paused and self.capacity and len(self.kbuf) + len(data) <= self.capacity:
+                    self.kbuf += data
+                    self.trace.ev("net", "write_buffered", n=len(data))
+                    return
                 if self.paused:
                     self.trace.ev("net", "write_held", n=len(data))
                 while self.paused and not self._closed and not self._broken:
@@ -173,6 +180,10 @@ class SimStream(trio.abc.HalfCloseableStream):
         if self.paused:
             self.paused = False
             self.trace.ev("client", "resume")
+            if self.kbuf and not self._closed and not self._broken:
+                d, self.kbuf = bytes(self.kbuf), bytearray()
+                self.out.append((self._now(), d))
+                self.trace.ev("net", "write", n=len(d))
             self._out_wake.set()
 
     @property
